@@ -19,10 +19,17 @@ PARTIAL = ["coeff normalisation is specified (and modelled) for the autocorrelat
            "block-boundary records (N = q*2^k + r, maxlags <= 8) longer than 2100 samples (one record in 4096..4104 per run "
            "excepted) and every data matrix of such a record are checked against the definition (oracle) only, for the same reason; "
            "their lag range is 0..8 (CORRELATION costs O(N * maxlags) interpreter steps); lengths around 2^16 in the thorough tier only",
+           "call sequences (seq kinds): only the last call of a history is compared with the exact model (one request per case); the "
+           "other calls, and every call of a history on a record longer than 600 samples or not ending with CORRELATION, against the "
+           "definition evaluated in floating point (oracle) only; corrmtx methods other than 'autocorrelation' inside a history are "
+           "checked for shape, repeatability and non-aliasing only (their entries are checked by the single-call corrmtx kind)",
            "error paths are outside the statement; a few rejected calls (CORRELATION maxlags >= N, xcorr unequal lengths or "
            "maxlags > N, corrmtx unknown method) are compared with the model's error kind only.  xcorr(maxlags=N) passes the "
            "code's own assertion and then raises IndexError: not generated"]
 ASSUMPTIONS = ["xcorr requires equal lengths (the code asserts it)",
+               "call sequences: the statement is read as holding for every call on valid inputs whatever the caller did before with "
+               "arrays it owns (its input records between calls, the arrays earlier calls returned to it); a returned array that is "
+               "not writeable is left alone (not counted as a violation)",
                "norm='coeff' requires a record of non-zero energy (rms(x) = 0 gives 0/0 = nan: degenerate, not generated); "
                "all-zero records are generated for 'biased', 'unbiased' and None, where the estimate is exactly zero",
                "inputs are 1-D numpy arrays (float64, complex128, float32, complex64, integer dtypes of any width) or "
@@ -45,7 +52,20 @@ RULE = ("random real/complex data (dyadic rationals, integers, constants), equal
         "for every other length; exact model up to N = 2100 and for one record in 4096..4104 per run; "
         "in EVERY CORRELATION / xcorr / Gram case each lag is compared with its own defined value at 1e-10 relative to "
         "max(|e[k]|, 1e-3 * sum_n |x[n+k]| |y[n]| / divisor [, 1e-3 * ||x|| ||y|| / divisor for the FFT-based xcorr]) in addition to the "
-        "max-norm comparison (tags blk:*)")
+        "max-norm comparison (tags blk:*); "
+        "call SEQUENCES on one or two records (kinds seq / seq_o, tags seq:*; quick 140 histories N = 1..16 + 10 on N = 64..2051, "
+        "thorough 700 per round N = 1..40 + 26 on N = 64..4099): a first call (CORRELATION / xcorr / corrmtx, norm = i mod 4) whose RETURNED "
+        "array(s) the caller then modifies in place (i mod 7: r /= r[0], r *= 0, r[:] = nan, r -= mean, r[0] = c, r *= c, reversal; the xcorr "
+        "lag vector too), then 2..4 further calls - 60 % on the same records with the same or fewer lags, same and other norms, through "
+        "all three functions (corrmtx: all five methods, 'autocorrelation' judged by its Gram clause), the same array objects or new "
+        "arrays / lists with equal values, half of them again followed by an in-place edit of their result - with (25 %) an in-place "
+        "edit of an INPUT record (negate, double, exchange two samples, bump one, rotate) or a rejected call (maxlags >= N) in between, "
+        "and a last CORRELATION call on the first records (exact model on the records' values at that point up to N = 600); the second "
+        "record is independent / equal to the first but two interior samples exchanged (same length, sum, energy, end samples) / shorter / "
+        "of the other type; EVERY call is judged against the definition (max-norm and per lag), arrays returned earlier must keep the "
+        "bytes the caller left in them after every later call and every later edit, editing a result must not change any input record "
+        "or argument, no call may modify its arguments, a repeated call on unchanged values must repeat its numbers, and in a closing "
+        "round all results are overwritten in place and every call of the history is made and judged once more")
 
 # kinds that only compare the error kind of a rejected call with the model: no amplitude / stride variants
 NO_VARY = {"corr_err", "xcorr_err", "corrmtx_err"}
@@ -781,9 +801,10 @@ def _alias_report(kept):
 def _seq_judge(s, out_arrays, a, b, tol=1e-10):
     """s: a call step; out_arrays: what the call returned; a, b: the CURRENT values of its records (b None = auto).
     Returns the list of differences from the definition.
-    Tolerances are those of the single-call oracles above (1e-10 max-norm; TOL_LAG per lag on that lag's own scale).  Worst
-    seen on the unchanged code over the quick seeds 0..4 + one thorough run of these kinds (VERIF_C09_STATS=1): max-norm
-    2.6e-16 (CORRELATION / Gram) and 4.5e-16 (xcorr), per lag 3.3e-13 of the lag's scale (xcorr) - margins > 300x."""
+    Tolerances are those of the single-call oracles above (1e-10 max-norm; TOL_LAG = 1e-10 per lag on that lag's own scale).
+    Worst seen on the unchanged code over the quick seeds 0..4 and one thorough run of these kinds (VERIF_C09_STATS=1, 8300 +
+    50760 comparisons): max-norm 4.5e-16 (quick) / 9.6e-15 (thorough), per lag 5.2e-16 (quick) / 1.3e-14 (thorough) of the lag's
+    scale - margin 7000x."""
     x = np.asarray(a)
     y = x if b is None else np.asarray(b)
     op, norm = s["op"], s.get("norm")
